@@ -172,6 +172,27 @@ def run(ctx: Context, rep) -> None:
         "a non-emptiness test that raises follows the predicate filter on "
         "every path to the return")
     check_empty(ctx, rep, sel)
+    # ... and the tf.data interface, which is not a generator, makes the
+    # selection (and so the emptiness test) when it is called, on every path
+    # to its return - for every shard format, like the other interfaces do at
+    # their first example
+    from sa.cfg import CFG as _CFG
+    tfi = ctx.fn(C.INTERFACES[0])
+    g_ = _CFG(tfi)
+    sel_calls = g_.calls(lambda c: isinstance(c.func, ast.Attribute) and
+                         c.func.attr == sel.name)
+    if not sel_calls:
+        rep.ob("C12.empty", False, loc=tfi.loc(), where=tfi.qualname,
+               construct=f"no direct call of {sel.name}",
+               message="the tf.data interface selects the shards itself")
+    else:
+        late = g_.always_before(sel_calls, [g_.exit], normal_only=True)
+        rep.ob("C12.empty", not late, loc=tfi.loc(), where=tfi.qualname,
+               construct=f"{len(sel_calls)} call(s) of {sel.name}; " + (
+                   "a return is reachable without one" if late else
+                   "every return passes one"),
+               message="an empty or invalid selection is refused when the "
+               "tf.data interface is called, for every shard format")
 
     rep.rule(
         "C12.formats",
